@@ -6,6 +6,8 @@ import os
 import numpy as np
 
 from .. import engine, refmodel as rm
+from .. import histories
+from ..histories import t_callhist        # worker task of the history harness (mc/histories.py)
 
 PID = 'C19'
 MOD = 'mc.props.c19'
@@ -193,6 +195,8 @@ def chk_buffer(case, acc, seed):
 DISPATCH = {'blur': chk, 'units': chk_units, 'scale': chk_scale, 'buffer': chk_buffer}
 
 
+DISPATCH['histop'] = histories.chk_case
+
 def t_shape(arg, acc):
     seed, shape, kind = arg['seed'], tuple(arg['shape']), arg['blur']
     exts = EXTENTS if kind != 'pixel' else [0, 1, 2, 3]
@@ -217,6 +221,7 @@ def run(tier, seed, acc, procs=None):
     tasks = [('t_shape', {'seed': seed, 'shape': s, 'blur': k}) for s in shapes for k in ('pixel', 'jitter', 'smear')]
     acc.states += 1
     acc.transitions += len(tasks)
+    tasks += histories.tasks_for(PID, seed)        # pairwise call histories over the operations this property is anchored in
     engine.run_parallel(MOD, tasks, acc, procs)
     return {
         'rule': 'images of 6 (9) shapes incl. non-square, even and odd x dense / smooth non-negative payloads and every unit impulse x '
@@ -232,5 +237,8 @@ def run(tier, seed, acc, procs=None):
 
 
 def replay(case, acc):
+    if case.get('kind') == 'histop':
+        import os as _os
+        return histories.chk_case(case, acc, int(_os.environ.get('VERIF_SEED', '0') or 0))
     seed = int(os.environ.get('VERIF_SEED', '0') or 0)
     DISPATCH[case['kind']](case, acc, seed)
